@@ -431,4 +431,958 @@ theorem alias_noDotSeg {uri k v : Bytes} (hu : CanonicalAbs uri) (hv : Canonical
     · subst e; exact nil_ne_dots
     · exact ⟨e.2.1, e.2.2.1⟩
 
+/-! ### host policy -/
+
+def hostByte (b : UInt8) : Bool := isDigit b || isAlpha b || b == 45 || b == dot
+
+theorem hostByte_ne {b : UInt8} (h : hostByte b = true) : b ≠ slash ∧ b ≠ colon := by
+  have := byte_forall (fun b => !hostByte b || (b != slash && b != colon)) (by decide +kernel) b
+  simp only [h, Bool.not_true, Bool.false_or, Bool.and_eq_true, bne_iff_ne, ne_eq] at this
+  exact this
+
+theorem isDigit_ne {b : UInt8} (h : isDigit b = true) : b ≠ slash ∧ b ≠ colon ∧ b ≠ dot := by
+  have := byte_forall (fun b => !isDigit b || (b != slash && b != colon && b != dot)) (by decide +kernel) b
+  simp only [h, Bool.not_true, Bool.false_or, Bool.and_eq_true, bne_iff_ne, ne_eq] at this
+  exact ⟨this.1.1, this.1.2, this.2⟩
+
+/-- the label scan of request_check_hostname(): accepted bytes, and no empty label -/
+theorem hostScan_spec : ∀ (rest : Bytes) (idx ll : Nat) (an nu : Bool) (lv : Nat)
+    (r : Nat × Bool × Bool × Nat),
+    checkHostnameV4.scan rest idx ll an nu lv = some r →
+    (∀ b ∈ rest, hostByte b = true) ∧
+    (r.1 ≠ 0 → ∀ H T, splitOn dot rest = H :: T → (ll = 0 → H ≠ []) ∧ ∀ seg ∈ T, seg ≠ []) := by
+  intro rest
+  induction rest with
+  | nil =>
+    intro idx ll an nu lv r h
+    unfold checkHostnameV4.scan at h
+    simp only [Option.some.injEq] at h
+    subst h
+    refine ⟨by simp, ?_⟩
+    intro hr H T hs
+    simp [splitOn] at hs
+    obtain ⟨rfl, rfl⟩ := hs
+    exact ⟨fun e => absurd e hr, by simp⟩
+  | cons ch more ih =>
+    intro idx ll an nu lv r h
+    unfold checkHostnameV4.scan at h
+    obtain ⟨Hm, Tm, hm⟩ := splitOn_cons_exists dot more
+    simp only at h
+    split at h
+    · rename_i hd
+      obtain ⟨h1, h2⟩ := ih _ _ _ _ _ _ h
+      refine ⟨?_, ?_⟩
+      · intro b hb
+        simp only [List.mem_cons] at hb
+        rcases hb with e | e
+        · subst e; simp [hostByte, hd]
+        · exact h1 b e
+      · intro hr H T hs
+        have hne : ch ≠ dot := (isDigit_ne hd).2.2
+        unfold splitOn at hs
+        rw [hm] at hs
+        simp only [hne, if_false, List.cons.injEq] at hs
+        obtain ⟨rfl, rfl⟩ := hs
+        exact ⟨fun _ => by simp, (h2 hr Hm Tm hm).2⟩
+    · split at h
+      · rename_i hd ha
+        obtain ⟨h1, h2⟩ := ih _ _ _ _ _ _ h
+        have hb' : hostByte ch = true := by
+          simp only [Bool.or_eq_true, Bool.and_eq_true, decide_eq_true_eq] at ha
+          rcases ha with ha | ha
+          · simp [hostByte, ha]
+          · simp [hostByte, ha.1]
+        have hne : ch ≠ dot := by
+          intro e
+          subst e
+          simp only [Bool.or_eq_true, Bool.and_eq_true, decide_eq_true_eq] at ha
+          rcases ha with ha | ha
+          · exact absurd ha (by decide)
+          · exact absurd ha.1 (by decide)
+        refine ⟨?_, ?_⟩
+        · intro b hb
+          simp only [List.mem_cons] at hb
+          rcases hb with e | e
+          · subst e; exact hb'
+          · exact h1 b e
+        · intro hr H T hs
+          unfold splitOn at hs
+          rw [hm] at hs
+          simp only [hne, if_false, List.cons.injEq] at hs
+          obtain ⟨rfl, rfl⟩ := hs
+          exact ⟨fun _ => by simp, (h2 hr Hm Tm hm).2⟩
+      · split at h
+        · rename_i hd ha hdot
+          simp only [Bool.and_eq_true, decide_eq_true_eq, bne_iff_ne, ne_eq] at hdot
+          obtain ⟨⟨hc, hl⟩, _⟩ := hdot
+          obtain ⟨h1, h2⟩ := ih _ _ _ _ _ _ h
+          refine ⟨?_, ?_⟩
+          · intro b hb
+            simp only [List.mem_cons] at hb
+            rcases hb with e | e
+            · subst e; simp [hostByte, hc]
+            · exact h1 b e
+          · intro hr H T hs
+            unfold splitOn at hs
+            rw [hm] at hs
+            simp only [hc, if_true, List.cons.injEq] at hs
+            obtain ⟨rfl, rfl⟩ := hs
+            have := h2 hr Hm Tm hm
+            refine ⟨fun e => ?_, ?_⟩
+            · omega
+            · intro seg hseg
+              simp only [List.mem_cons] at hseg
+              rcases hseg with e | e
+              · subst e; exact this.1 rfl
+              · exact this.2 seg e
+        · simp at h
+
+theorem findIdx_spec (p : UInt8 → Bool) : ∀ (l : Bytes) (k i : Nat), findIdx p l k = some i →
+    k ≤ i ∧ (∀ y ∈ l.take (i - k), p y = false) ∧ ∃ x rest, l.drop (i - k) = x :: rest ∧ p x = true := by
+  intro l
+  induction l with
+  | nil => intro k i h; simp [findIdx] at h
+  | cons b rest ih =>
+    intro k i h
+    unfold findIdx at h
+    split at h
+    · rename_i hp
+      simp only [Option.some.injEq] at h
+      subst h
+      exact ⟨Nat.le_refl _, by simp, b, rest, by simp, hp⟩
+    · rename_i hp
+      obtain ⟨h1, h2, x, r, h3, h4⟩ := ih _ _ h
+      have : i - k = (i - (k + 1)) + 1 := by omega
+      refine ⟨by omega, ?_, x, r, ?_, h4⟩
+      · rw [this]
+        intro y hy
+        simp only [List.take_succ_cons, List.mem_cons] at hy
+        rcases hy with e | e
+        · subst e; simpa using hp
+        · exact h2 y e
+      · rw [this]; simpa using h3
+
+theorem findIdx_none (p : UInt8 → Bool) : ∀ (l : Bytes) (k : Nat), findIdx p l k = none →
+    ∀ y ∈ l, p y = false := by
+  intro l
+  induction l with
+  | nil => intro k _ y hy; simp at hy
+  | cons b rest ih =>
+    intro k h y hy
+    unfold findIdx at h
+    split at h
+    · simp at h
+    · rename_i hp
+      simp only [List.mem_cons] at hy
+      rcases hy with e | e
+      · subst e; simpa using hp
+      · exact ih _ h y e
+
+/-- request_check_hostname() after the host/port split (same code, the split made a parameter) -/
+def hostFin (hp port : Bytes) : Option Bytes :=
+  match port with
+  | [] => some hp
+  | _ :: digits =>
+    if digits.all isDigit then
+      (if digits.isEmpty then some hp else some (hp ++ port))
+    else none
+
+def hostCore2 (hp port : Bytes) : Option Bytes :=
+  if hp.isEmpty then none else
+  match checkHostnameV4.scan hp 0 0 true true 0 with
+  | none => none
+  | some (labelLen, allnum, numeric, level) =>
+    if labelLen = 0 || (numeric && (level ≠ 3 || !allnum)) then none else hostFin hp port
+
+def hostCore (hp0 port : Bytes) : Option Bytes :=
+  if hp0.isEmpty then none else
+  hostCore2 (if hp0.getLast? = some dot then hp0.dropLast else hp0) port
+
+theorem checkHostnameV4_eq (h : Bytes) :
+    checkHostnameV4 h =
+      hostCore (match findIdx (· = colon) h 0 with | some i => h.take i | none => h)
+               (match findIdx (· = colon) h 0 with | some i => h.drop i | none => []) := by
+  unfold checkHostnameV4 hostCore hostCore2 hostFin
+  rfl
+
+theorem hostFin_spec {hp port h' : Bytes} (hh : hostFin hp port = some h')
+    (hport : port = [] ∨ ∃ ds, port = colon :: ds) :
+    ∃ port', h' = hp ++ port' ∧ (port' = [] ∨ ∃ ds, port' = colon :: ds ∧ ds.all isDigit = true) := by
+  unfold hostFin at hh
+  rcases hport with rfl | ⟨ds, rfl⟩
+  · simp only [Option.some.injEq] at hh
+    exact ⟨[], by simp [hh], Or.inl rfl⟩
+  · simp only at hh
+    by_cases hd : ds.all isDigit = true
+    · rw [if_pos hd] at hh
+      by_cases he : ds.isEmpty = true
+      · rw [if_pos he] at hh
+        simp only [Option.some.injEq] at hh
+        exact ⟨[], by simp [hh], Or.inl rfl⟩
+      · rw [if_neg he] at hh
+        simp only [Option.some.injEq] at hh
+        exact ⟨colon :: ds, hh.symm, Or.inr ⟨ds, rfl, hd⟩⟩
+    · rw [if_neg hd] at hh; simp at hh
+
+theorem hostCore2_spec {hp port h' : Bytes} (hh : hostCore2 hp port = some h')
+    (hport : port = [] ∨ ∃ ds, port = colon :: ds) :
+    ∃ port', h' = hp ++ port' ∧ hp ≠ [] ∧ (∀ b ∈ hp, hostByte b = true) ∧
+      (∀ seg ∈ splitOn dot hp, seg ≠ []) ∧
+      (port' = [] ∨ ∃ ds, port' = colon :: ds ∧ ds.all isDigit = true) := by
+  unfold hostCore2 at hh
+  by_cases h1 : hp.isEmpty = true
+  · rw [if_pos h1] at hh; simp at hh
+  · rw [if_neg h1] at hh
+    have hpne : hp ≠ [] := by intro e; simp [e] at h1
+    cases hscan : checkHostnameV4.scan hp 0 0 true true 0 with
+    | none => rw [hscan] at hh; simp at hh
+    | some r =>
+      obtain ⟨ll, an, nu, lv⟩ := r
+      rw [hscan] at hh
+      simp only at hh
+      by_cases h3 : (decide (ll = 0) || (nu && (decide (lv ≠ 3) || !an))) = true
+      · rw [if_pos h3] at hh; simp at hh
+      · rw [if_neg h3] at hh
+        have hll : ll ≠ 0 := by intro e; simp [e] at h3
+        obtain ⟨hbytes, hlabels⟩ := hostScan_spec _ _ _ _ _ _ _ hscan
+        obtain ⟨port', hp', hport'⟩ := hostFin_spec hh hport
+        refine ⟨port', hp', hpne, hbytes, ?_, hport'⟩
+        obtain ⟨H, T, hs⟩ := splitOn_cons_exists dot hp
+        have := hlabels hll H T hs
+        intro seg hseg
+        rw [hs] at hseg
+        simp only [List.mem_cons] at hseg
+        rcases hseg with e | e
+        · subst e; exact this.1 rfl
+        · exact this.2 seg e
+
+/-- what request_check_hostname() lets through (hosts not starting with '[') -/
+theorem checkHostnameV4_spec {h h' : Bytes} (hh : checkHostnameV4 h = some h') :
+    ∃ hp port, h' = hp ++ port ∧ hp ≠ [] ∧ (∀ b ∈ hp, hostByte b = true) ∧
+      (∀ seg ∈ splitOn dot hp, seg ≠ []) ∧
+      (port = [] ∨ ∃ ds, port = colon :: ds ∧ ds.all isDigit = true) := by
+  rw [checkHostnameV4_eq] at hh
+  have hport : (match findIdx (· = colon) h 0 with | some i => h.drop i | none => ([] : Bytes)) = [] ∨
+      ∃ ds, (match findIdx (· = colon) h 0 with | some i => h.drop i | none => ([] : Bytes)) = colon :: ds := by
+    cases hci : findIdx (· = colon) h 0 with
+    | none => left; rfl
+    | some i =>
+      right
+      obtain ⟨_, _, y, r, hd, hy⟩ := findIdx_spec _ _ _ _ hci
+      simp only [Nat.sub_zero] at hd
+      refine ⟨r, ?_⟩
+      simp only [hd, List.cons.injEq, and_true]
+      simpa using hy
+  generalize (match findIdx (· = colon) h 0 with | some i => h.take i | none => h) = A at hh
+  generalize (match findIdx (· = colon) h 0 with | some i => h.drop i | none => ([] : Bytes)) = B at hh hport
+  unfold hostCore at hh
+  by_cases h1 : A.isEmpty = true
+  · rw [if_pos h1] at hh; simp at hh
+  · rw [if_neg h1] at hh
+    obtain ⟨port', h1, h2, h3, h4, h5⟩ := hostCore2_spec hh hport
+    exact ⟨_, port', h1, h2, h3, h4, h5⟩
+
+theorem takeWhile_append_stop {p : UInt8 → Bool} : ∀ (a : Bytes) (x : UInt8) (r : Bytes),
+    (∀ b ∈ a, p b = true) → p x = false → (a ++ x :: r).takeWhile p = a := by
+  intro a
+  induction a with
+  | nil => intro x r _ hx; simp [List.takeWhile_cons, hx]
+  | cons b bs ih =>
+    intro x r ha hx
+    simp only [List.cons_append, List.takeWhile_cons, ha b (by simp), if_true]
+    rw [ih x r (fun y hy => ha y (by simp [hy])) hx]
+
+theorem takeWhile_all {p : UInt8 → Bool} : ∀ (a : Bytes), (∀ b ∈ a, p b = true) → a.takeWhile p = a := by
+  intro a
+  induction a with
+  | nil => intro _; rfl
+  | cons b bs ih =>
+    intro ha
+    simp only [List.takeWhile_cons, ha b (by simp), if_true]
+    rw [ih (fun y hy => ha y (by simp [hy]))]
+
+theorem splitOn_dot_dot : splitOn dot segDot = [[], []] := by decide
+theorem splitOn_dot_dotdot : splitOn dot segDotDot = [[], [], []] := by decide
+
+/-- an accepted strict host name is one clean path segment -/
+theorem checkHostnameV4_clean {h h' : Bytes} (hh : checkHostnameV4 h = some h') :
+    slash ∉ h' ∧ Clean (hostPart h') ∧ ∀ seg ∈ splitOn dot (hostPart h'), seg ≠ [] := by
+  obtain ⟨hp, port, rfl, hpne, hbytes, hsegs, hport⟩ := checkHostnameV4_spec hh
+  have hhp : hostPart (hp ++ port) = hp := by
+    unfold hostPart
+    rcases hport with rfl | ⟨ds, rfl, _⟩
+    · rw [List.append_nil]
+      exact takeWhile_all _ (fun b hb => by simpa using (hostByte_ne (hbytes b hb)).2)
+    · exact takeWhile_append_stop _ _ _ (fun b hb => by simpa using (hostByte_ne (hbytes b hb)).2)
+        (by simp)
+  have hns : slash ∉ hp := fun hm => (hostByte_ne (hbytes _ hm)).1 rfl
+  refine ⟨?_, ?_, ?_⟩
+  · intro hm
+    simp only [List.mem_append] at hm
+    rcases hm with hm | hm
+    · exact hns hm
+    · rcases hport with rfl | ⟨ds, rfl, hds⟩
+      · simp at hm
+      · simp only [List.mem_cons] at hm
+        rcases hm with e | e
+        · exact absurd e (by decide)
+        · rw [List.all_eq_true] at hds
+          exact (isDigit_ne (hds _ e)).1 rfl
+  · rw [hhp]
+    refine ⟨hpne, ?_, ?_, hns⟩
+    · intro e; rw [e, splitOn_dot_dot] at hsegs; exact hsegs [] (by simp) rfl
+    · intro e; rw [e, splitOn_dot_dotdot] at hsegs; exact hsegs [] (by simp) rfl
+  · rw [hhp]; exact hsegs
+
+def v6Byte (b : UInt8) : Bool := isXDigit b || b == dot || b == colon
+
+theorem v6Byte_ne {b : UInt8} (h : v6Byte b = true) : b ≠ slash := by
+  have := byte_forall (fun b => !v6Byte b || b != slash) (by decide +kernel) b
+  simpa [h] using this
+
+theorem v6Body_spec : ∀ (t : Bytes) (cnt : Nat), t = (v6Body t cnt).1 ++ (v6Body t cnt).2 ∧
+    ∀ b ∈ (v6Body t cnt).1, v6Byte b = true := by
+  intro t
+  induction t with
+  | nil => intro cnt; simp [v6Body]
+  | cons b rest ih =>
+    intro cnt
+    unfold v6Body
+    split
+    · rename_i hc
+      obtain ⟨h1, h2⟩ := ih cnt
+      refine ⟨by simp only [List.cons_append]; rw [← h1], ?_⟩
+      intro y hy
+      simp only [List.mem_cons] at hy
+      rcases hy with e | e
+      · subst e
+        simp only [Bool.or_eq_true, decide_eq_true_eq] at hc
+        rcases hc with hc | hc
+        · simp [v6Byte, hc]
+        · simp [v6Byte, hc]
+      · exact h2 y e
+    · split
+      · rename_i hc
+        obtain ⟨h1, h2⟩ := ih (cnt + 1)
+        refine ⟨by simp only [List.cons_append]; rw [← h1], ?_⟩
+        intro y hy
+        simp only [List.mem_cons] at hy
+        rcases hy with e | e
+        · subst e
+          simp only [Bool.and_eq_true, decide_eq_true_eq] at hc
+          simp [v6Byte, hc.1]
+        · exact h2 y e
+      · simp
+
+theorem v6_nomem {body after : Bytes} (hb : slash ∉ body) (ha : slash ∉ after) :
+    slash ∉ (91 : UInt8) :: (body ++ 93 :: after) := by
+  have h91 : slash ≠ (91 : UInt8) := by decide
+  have h93 : slash ≠ (93 : UInt8) := by decide
+  simp [h91, h93, hb, ha]
+
+/-- an accepted "[...]" host: starts with '[' and contains no '/' -/
+theorem checkHostnameV6_spec {h h' : Bytes} (hh : checkHostnameV6 h = some h') :
+    slash ∉ h' ∧ h'.head? = some 91 := by
+  unfold checkHostnameV6 at hh
+  split at hh
+  · rename_i t
+    obtain ⟨hsplit, hbody⟩ := v6Body_spec t 0
+    generalize v6Body t 0 = br at hh hsplit hbody
+    obtain ⟨body, rest⟩ := br
+    simp only at hh hsplit hbody
+    have hbs : slash ∉ body := fun hm => v6Byte_ne (hbody _ hm) rfl
+    split at hh
+    · rename_i after
+      by_cases hbe : body.isEmpty = true
+      · rw [if_pos hbe] at hh; simp at hh
+      · rw [if_neg hbe] at hh
+        split at hh
+        · simp only [Option.some.injEq] at hh
+          subst hh
+          exact ⟨by rw [hsplit]; exact v6_nomem hbs (by simp), by simp⟩
+        · rename_i digits
+          by_cases hdig : digits.all isDigit = true
+          · rw [if_pos hdig] at hh
+            have hds : slash ∉ digits := by
+              intro hm; rw [List.all_eq_true] at hdig; exact (isDigit_ne (hdig _ hm)).1 rfl
+            by_cases hde : digits.isEmpty = true
+            · rw [if_pos hde] at hh
+              simp only [Option.some.injEq] at hh
+              subst hh
+              exact ⟨v6_nomem hbs (by simp), by simp⟩
+            · rw [if_neg hde] at hh
+              simp only [Option.some.injEq] at hh
+              subst hh
+              refine ⟨?_, by simp⟩
+              rw [hsplit]
+              refine v6_nomem hbs ?_
+              have h58 : slash ≠ (58 : UInt8) := by decide
+              simp [h58, hds]
+          · rw [if_neg hdig] at hh; simp at hh
+        · simp at hh
+    · simp at hh
+  · simp at hh
+
+theorem hostPart_subset (a : Bytes) : ∀ b ∈ hostPart a, b ∈ a := by
+  intro b hb
+  unfold hostPart at hb
+  exact (List.takeWhile_sublist _).subset hb
+
+theorem hostPart_head (a : Bytes) : (hostPart a).head? = none ∨ (hostPart a).head? = a.head? := by
+  unfold hostPart
+  cases a with
+  | nil => left; rfl
+  | cons x xs =>
+    simp only [List.takeWhile_cons]
+    split
+    · right; simp
+    · left; rfl
+
+/-! ### X-Sendfile -/
+
+theorem isPrefixOf_head {lc : Bool} {x p : Bytes} (h : isPrefixOf lc x p = true)
+    (hx : x.head? = some slash) : p.head? = some slash := by
+  unfold isPrefixOf at h
+  simp only [Bool.and_eq_true, decide_eq_true_eq] at h
+  obtain ⟨hl, he⟩ := h
+  cases x with
+  | nil => simp at hx
+  | cons a as =>
+    simp only [List.head?_cons, Option.some.injEq] at hx
+    subst hx
+    cases p with
+    | nil => simp at hl
+    | cons b bs =>
+      cases lc
+      · simp only [Bool.false_eq_true, if_false, List.length_cons, List.take_succ_cons, beq_iff_eq,
+                   List.cons.injEq] at he
+        simp [he.1]
+      · simp only [if_true, eqIcase, List.length_cons, List.take_succ_cons, List.map_cons, beq_iff_eq,
+                   List.cons.injEq, toLower_slash] at he
+        simp [toLower_eq_slash he.1]
+
+theorem isPrefixOf_exact {x p : Bytes} (h : isPrefixOf false x p = true) : ∃ rest, p = x ++ rest := by
+  unfold isPrefixOf at h
+  simp only [Bool.and_eq_true, decide_eq_true_eq, Bool.false_eq_true, if_false, beq_iff_eq] at h
+  refine ⟨p.drop x.length, ?_⟩
+  have := List.take_append_drop x.length p
+  rw [h.2] at this
+  exact this.symm
+
+theorem lowerBytes_head_slash {q : Bytes} (h : (lowerBytes q).head? = some slash) : q.head? = some slash := by
+  cases q with
+  | nil => simp [lowerBytes] at h
+  | cons a as =>
+    simp only [lowerBytes, List.map_cons, List.head?_cons, Option.some.injEq] at h
+    simp [toLower_eq_slash h]
+
+/-! ### symlink walk -/
+
+theorem lastSlashBefore_spec (s : Bytes) : ∀ (n : Nat),
+    (∀ j, lastSlashBefore s n = some j → j < n ∧ s.getD j 0 = slash ∧
+        ∀ i, i < n → s.getD i 0 = slash → i ≤ j) ∧
+    (lastSlashBefore s n = none → ∀ i, i < n → s.getD i 0 ≠ slash) := by
+  intro n
+  induction n with
+  | zero => simp [lastSlashBefore]
+  | succ k ih =>
+    unfold lastSlashBefore
+    split
+    · rename_i hk
+      refine ⟨?_, by simp⟩
+      intro j hj
+      simp only [Option.some.injEq] at hj
+      subst hj
+      exact ⟨by omega, hk, fun i hi _ => by omega⟩
+    · rename_i hk
+      refine ⟨?_, ?_⟩
+      · intro j hj
+        obtain ⟨h1, h2, h3⟩ := ih.1 j hj
+        refine ⟨by omega, h2, ?_⟩
+        intro i hi hs
+        by_cases e : i = k
+        · subst e; exact absurd hs hk
+        · exact h3 i (by omega) hs
+      · intro hn i hi
+        by_cases e : i = k
+        · subst e; exact hk
+        · exact ih.2 hn i (by omega)
+
+def fsOk (k : FsKind) : Prop := k ≠ .link ∧ k ≠ .missing
+
+/-- the loop of stat_cache_path_contains_symlink(): result 0 means every probed prefix exists and
+    is not a symbolic link; the probed prefixes are the path and its cuts at every '/' but the first -/
+theorem symLoop_zero (fs : Bytes → FsKind) : ∀ (n : Nat) (cur : Bytes), cur.length = n →
+    symLoop fs cur = 0 →
+    fsOk (fs cur) ∧ ∀ i, 0 < i → i < cur.length → cur.getD i 0 = slash → fsOk (fs (cur.take i)) := by
+  intro n
+  induction n using Nat.strongRecOn with
+  | _ n ih =>
+    intro cur hlen h
+    unfold symLoop at h
+    have hk : fsOk (fs cur) := by
+      unfold fsOk
+      cases hf : fs cur <;> simp [hf] at h <;> simp
+    refine ⟨hk, ?_⟩
+    have h' : (match lastSlash cur with
+        | some j => if _h : 0 < j ∧ j < cur.length then symLoop fs (cur.take j) else 0
+        | none => 0) = 0 := by
+      cases hf : fs cur <;> simp [hf] at h <;> first | exact h | (exfalso; exact hk.1 hf) | (exfalso; exact hk.2 hf)
+    intro i hi0 hil his
+    have hspec := lastSlashBefore_spec cur cur.length
+    cases hls : lastSlash cur with
+    | none =>
+      unfold lastSlash at hls
+      exact absurd his (hspec.2 hls i hil)
+    | some j =>
+      have hls' := hls
+      unfold lastSlash at hls'
+      obtain ⟨hj1, hj2, hj3⟩ := hspec.1 j hls'
+      have hij : i ≤ j := hj3 i hil his
+      rw [hls] at h'
+      simp only at h'
+      have hcond : 0 < j ∧ j < cur.length := ⟨by omega, hj1⟩
+      rw [dif_pos hcond] at h'
+      have hlen' : (cur.take j).length = j := by simp [List.length_take]; omega
+      obtain ⟨r1, r2⟩ := ih j (by omega) (cur.take j) hlen' h'
+      by_cases e : i = j
+      · subst e; exact r1
+      · have := r2 i hi0 (by rw [hlen']; omega) (by
+          have hlt : i < j := by omega
+          simp only [List.getD_eq_getElem?_getD, List.getElem?_take, hlt, if_true] at his ⊢
+          exact his)
+        rw [List.take_take] at this
+        have hmin : min i j = i := by omega
+        rw [hmin] at this
+        exact this
+
+/-! ### WebDAV Destination -/
+
+theorem canonical_mid_nonempty {r : Bytes} (h : CanonicalAbs r) :
+    ∀ seg ∈ ((splitOn slash r).drop 1).dropLast, seg ≠ [] := by
+  obtain ⟨stack, hc, hs⟩ := canonical_split h
+  intro seg hseg
+  rcases hs with hs | ⟨hne, hs⟩ <;> rw [hs] at hseg
+  · simp only [List.cons_append, List.drop_succ_cons, List.drop_zero,
+               List.dropLast_concat] at hseg
+    exact (hc seg hseg).1
+  · simp only [List.drop_succ_cons, List.drop_zero] at hseg
+    exact (hc seg (List.dropLast_subset _ hseg)).1
+
+theorem getD_split {d : Bytes} {i : Nat} (h : i < d.length) :
+    d = d.take i ++ d.getD i 0 :: d.drop (i + 1) := by
+  have h1 := List.take_append_drop i d
+  have h2 : d.drop i = d[i] :: d.drop (i + 1) := List.drop_eq_getElem_cons h
+  have h3 : d.getD i 0 = d[i] := by simp [List.getD_eq_getElem?_getD, List.getElem?_eq_getElem h]
+  rw [h3, ← h2, h1]
+
+/-- a canonical path has no "//" -/
+theorem canonical_no_double_slash {d : Bytes} (h : CanonicalAbs d) {i : Nat} (h1 : i + 1 < d.length)
+    (ha : d.getD i 0 = slash) (hb : d.getD (i + 1) 0 = slash) : False := by
+  have e1 := getD_split (d := d) (i := i) (by omega)
+  have e2 := getD_split (d := d.drop (i + 1)) (i := 0) (by simp; omega)
+  simp only [List.take_zero, List.nil_append, List.drop_drop] at e2
+  have hb' : (d.drop (i + 1)).getD 0 0 = slash := by
+    simpa [List.getD_eq_getElem?_getD, List.getElem?_drop] using hb
+  rw [hb'] at e2
+  rw [ha, e2] at e1
+  obtain ⟨Hb, Tb, hsb⟩ := splitOn_cons_exists slash (d.drop (i + 1 + (0 + 1)))
+  have hss : splitOn slash (slash :: slash :: d.drop (i + 1 + (0 + 1))) = [] :: [] :: Hb :: Tb := by
+    rw [splitOn_cons_sep, splitOn_cons_sep, hsb]
+  obtain ⟨D, L, _, h2⟩ := splitOn_append slash (d.take i) _ hss
+  rw [← e1] at h2
+  have hmid := canonical_mid_nonempty h
+  rw [h2] at hmid
+  cases D with
+  | nil =>
+    simp only [List.nil_append, List.drop_succ_cons, List.drop_zero] at hmid
+    exact hmid [] (by simp [List.dropLast]) rfl
+  | cons d0 ds =>
+    simp only [List.cons_append, List.drop_succ_cons, List.drop_zero] at hmid
+    refine hmid [] ?_ rfl
+    rw [List.dropLast_append_of_ne_nil (by simp)]
+    simp [List.dropLast]
+
+theorem davDstRel_canonical {lc : Bool} {scheme authority dest d : Bytes}
+    (h : davDstRel lc scheme authority dest = .ok d) : CanonicalAbs d := by
+  unfold davDstRel at h
+  cases hs : davStripOrigin scheme authority dest with
+  | error st => rw [hs] at h; simp at h
+  | ok p =>
+    rw [hs] at h
+    simp only at h
+    split at h
+    · simp at h
+    · split at h
+      · simp at h
+      · split at h
+        · simp at h
+        · rename_i hhead
+          simp only [ne_eq, Decidable.not_not] at hhead
+          simp only [Except.ok.injEq] at h
+          subst h
+          have hc := pathSimplify_head_canonical _ hhead
+          cases lc
+          · simpa using hc
+          · simpa [lowerBytes] using canonical_map_toLower hc
+
+theorem commonLen_le : ∀ (a b : Bytes), commonLen a b ≤ a.length ∧ commonLen a b ≤ b.length := by
+  intro a
+  induction a with
+  | nil => intro b; simp [commonLen]
+  | cons x xs ih =>
+    intro b
+    cases b with
+    | nil => simp [commonLen]
+    | cons y ys =>
+      unfold commonLen
+      split
+      · have := ih ys; simp only [List.length_cons]; omega
+      · simp
+
+theorem commonLen_take : ∀ (a b : Bytes), a.take (commonLen a b) = b.take (commonLen a b) := by
+  intro a
+  induction a with
+  | nil => intro b; simp [commonLen]
+  | cons x xs ih =>
+    intro b
+    cases b with
+    | nil => simp [commonLen]
+    | cons y ys =>
+      unfold commonLen
+      split
+      · rename_i hxy; subst hxy; simp [ih ys]
+      · simp
+
+theorem backToSlash_spec (p : Bytes) : ∀ (c : Nat), backToSlash p c ≤ c ∧
+    (backToSlash p c = 0 ∨ (p.getD (backToSlash p c) 0 = slash ∧ backToSlash p c < c)) := by
+  intro c
+  induction c with
+  | zero => simp [backToSlash]
+  | succ k ih =>
+    unfold backToSlash
+    split
+    · rename_i hk
+      refine ⟨by omega, ?_⟩
+      by_cases e : k = 0
+      · left; exact e
+      · right; exact ⟨hk, by omega⟩
+    · obtain ⟨h1, h2⟩ := ih
+      refine ⟨by omega, ?_⟩
+      rcases h2 with h2 | h2
+      · left; exact h2
+      · right; exact ⟨h2.1, by omega⟩
+
+theorem drop_len_add (S l : Bytes) (i : Nat) : (S ++ l).drop (S.length + i) = l.drop i := by
+  induction S with
+  | nil => simp
+  | cons x xs ih =>
+    have : (x :: xs).length + i = (xs.length + i) + 1 := by simp only [List.length_cons]; omega
+    rw [this]; simpa using ih
+
+theorem take_len_add (S l : Bytes) (i : Nat) : (S ++ l).take (S.length + i) = S ++ l.take i := by
+  induction S with
+  | nil => simp
+  | cons x xs ih =>
+    have : (x :: xs).length + i = (xs.length + i) + 1 := by simp only [List.length_cons]; omega
+    rw [this]; simpa using ih
+
+theorem stripSlash_of_not {X : Bytes} (h : endsWithSlash X = false) : stripSlash X = X := by
+  unfold stripSlash; simp [h]
+
+/-- in the plain configuration (physical.path = doc_root + rel_path) the destination is mapped to
+    doc_root + destination url-path -/
+theorem davDstPath_plain {docroot srcRel S d : Bytes} (hd : CanonicalAbs d)
+    (hS : endsWithSlash S = false) :
+    davDstPath docroot srcRel (S ++ srcRel) d = S ++ d := by
+  unfold davDstPath
+  simp only
+  have hc := commonLen_le srcRel d
+  obtain ⟨hi1, hi2⟩ := backToSlash_spec srcRel (commonLen srcRel d)
+  have hidx : davRemapIdx srcRel d = backToSlash srcRel (commonLen srcRel d) := rfl
+  generalize hi : davRemapIdx srcRel d = i at *
+  rw [← hidx] at hi1 hi2
+  have hlen : (S ++ srcRel).length - (srcRel.length - i) = S.length + i := by
+    simp only [List.length_append]; omega
+  rw [hlen, drop_len_add, take_len_add]
+  simp only [if_true]
+  have htake : srcRel.take i = d.take i := by
+    have := commonLen_take srcRel d
+    have h1 : (srcRel.take (commonLen srcRel d)).take i = (d.take (commonLen srcRel d)).take i := by rw [this]
+    simp only [List.take_take] at h1
+    have hmin : min i (commonLen srcRel d) = i := by omega
+    rw [hmin] at h1; exact h1
+  rw [htake]
+  have hdhead := canonical_head hd
+  rcases hi2 with hi2 | ⟨hsl, hlt⟩
+  · -- no common directory below "/": doc_root + whole destination path
+    rw [hi2]
+    simp only [List.take_zero, List.append_nil, List.drop_zero]
+    rw [pathAppend_abs S hdhead, stripSlash_of_not hS]
+  · -- common directory ends at index i > 0 … or i = 0
+    by_cases hi0 : i = 0
+    · subst hi0
+      simp only [List.take_zero, List.append_nil, List.drop_zero]
+      rw [pathAppend_abs S hdhead, stripSlash_of_not hS]
+    · have hdi : d.getD i 0 = slash := by
+        have h1 : (srcRel.take (commonLen srcRel d)).getD i 0 = (d.take (commonLen srcRel d)).getD i 0 := by
+          rw [commonLen_take]
+        simp only [List.getD_eq_getElem?_getD, List.getElem?_take, hlt, if_true] at h1
+        simp only [List.getD_eq_getElem?_getD] at hsl ⊢
+        rw [← h1]; exact hsl
+      have hil : i < d.length := by omega
+      have hdrop : (d.drop i).head? = some slash := by
+        rw [List.drop_eq_getElem_cons hil]
+        simp only [List.head?_cons, Option.some.injEq]
+        simpa [List.getD_eq_getElem?_getD, List.getElem?_eq_getElem hil] using hdi
+      rw [pathAppend_abs _ hdrop]
+      obtain ⟨j, rfl⟩ : ∃ j, i = j + 1 := ⟨i - 1, by omega⟩
+      have hjl : j < d.length := by omega
+      have hnot : endsWithSlash (S ++ d.take (j + 1)) = false := by
+        unfold endsWithSlash
+        rw [List.take_succ, List.getElem?_eq_getElem hjl]
+        simp only [Option.toList_some, ← List.append_assoc, List.getLast?_append,
+                   List.getLast?_singleton, Option.some_or, decide_eq_false_iff_not,
+                   Option.some.injEq]
+        intro e
+        exact canonical_no_double_slash hd (i := j) (by omega)
+          (by simpa [List.getD_eq_getElem?_getD, List.getElem?_eq_getElem hjl] using e) hdi
+      rw [stripSlash_of_not hnot, List.append_assoc, List.take_append_drop]
+
+/-! ### mod_evhost -/
+
+theorem slice_subset {a : Bytes} {i j : Nat} {b : UInt8} (h : b ∈ slice a i j) : b ∈ a := by
+  unfold slice at h
+  exact (List.take_sublist _ _).subset ((List.drop_sublist _ _).subset h)
+
+theorem mem_slice {a : Bytes} {i j : Nat} {b : UInt8} (h : b ∈ slice a i j) :
+    ∃ k, i ≤ k ∧ k < j ∧ a.getD k 0 = b := by
+  unfold slice at h
+  obtain ⟨m, hm⟩ := List.mem_iff_getElem?.mp h
+  rw [List.getElem?_drop, List.getElem?_take] at hm
+  split at hm
+  · rename_i hlt
+    exact ⟨i + m, by omega, hlt, by simp [List.getD_eq_getElem?_getD, hm]⟩
+  · simp at hm
+
+theorem slice_ne_nil {a : Bytes} {i j : Nat} (h1 : i < j) (h2 : j ≤ a.length) : slice a i j ≠ [] := by
+  intro e
+  have := congrArg List.length e
+  simp only [slice, List.length_drop, List.length_take, List.length_nil] at this
+  omega
+
+/-- every value of the "%n" table is cut out of the authority -/
+theorem evLoop2_subset (a : Bytes) : ∀ (p col i : Nat) (acc : List (Nat × Bytes)),
+    (∀ e ∈ acc, ∀ b ∈ e.2, b ∈ a) → ∀ e ∈ (evLoop2 a p col i acc).2.2, ∀ b ∈ e.2, b ∈ a := by
+  intro p
+  induction p with
+  | zero => intro col i acc h; simpa [evLoop2] using h
+  | succ q ih =>
+    intro col i acc h
+    unfold evLoop2
+    split
+    · split
+      · apply ih
+        intro e he
+        simp only [List.mem_append, List.mem_singleton] at he
+        rcases he with he | he
+        · exact h e he
+        · subst he; intro b hb; exact slice_subset hb
+      · exact ih _ _ _ h
+    · exact ih _ _ _ h
+
+theorem evParseHost_subset (a : Bytes) : ∀ e ∈ evParseHost a, ∀ b ∈ e.2, b ∈ a := by
+  unfold evParseHost
+  simp only
+  split
+  · split
+    · split
+      · simp
+      · intro e he b hb
+        simp only [List.mem_singleton] at he
+        subst he
+        exact (List.take_sublist _ _).subset hb
+    · intro e he b hb
+      simp only [List.mem_singleton] at he
+      subst he; exact hb
+  · generalize evLoop1 a a.length a.length true = pc
+    obtain ⟨ptr, col⟩ := pc
+    simp only
+    have h0 : ∀ e ∈ [((0 : Nat), slice a (if a.getD ptr 0 = dot then ptr + 1 else ptr) col)],
+        ∀ b ∈ e.2, b ∈ a := by
+      intro e he b hb
+      simp only [List.mem_singleton] at he
+      subst he; exact slice_subset hb
+    split
+    · have h2 := evLoop2_subset a (col - 1) col 1 _ h0
+      generalize evLoop2 a (col - 1) col 1 _ = r at h2
+      obtain ⟨col2, i, acc⟩ := r
+      simp only at h2 ⊢
+      split
+      · intro e he
+        simp only [List.mem_append, List.mem_singleton] at he
+        rcases he with he | he
+        · exact h2 e he
+        · subst he; intro b hb; exact slice_subset hb
+      · exact h2
+    · exact h0
+
+theorem evLookup_mem {tbl : List (Nat × Bytes)} {n : Nat} {v : Bytes} (h : evLookup tbl n = some v) :
+    (n, v) ∈ tbl := by
+  unfold evLookup at h
+  cases hf : tbl.find? (·.1 = n) with
+  | none => simp [hf] at h
+  | some e =>
+    simp only [hf, Option.map_some, Option.some.injEq] at h
+    have hm := List.mem_of_find?_eq_some hf
+    have hp := List.find?_some hf
+    simp only [decide_eq_true_eq] at hp
+    obtain ⟨e1, e2⟩ := e
+    simp only at hp h
+    subst hp; subst h; exact hm
+
+/-- what a placeholder contributes consists of bytes of the authority (or is "%") -/
+theorem evPieceValue_bytes (a : Bytes) (p : EvPiece) (hp : ∀ s, p ≠ .lit s) :
+    ∀ b ∈ evPieceValue (evParseHost a) a p, b ∈ a ∨ b = pct := by
+  intro b hb
+  cases p with
+  | lit s => exact absurd rfl (hp s)
+  | pct => right; simpa [evPieceValue] using hb
+  | fqdn => left; exact hostPart_subset a b (by simpa [evPieceValue] using hb)
+  | idx n =>
+    left
+    simp only [evPieceValue] at hb
+    cases hl : evLookup (evParseHost a) n with
+    | none => simp [hl] at hb
+    | some v =>
+      simp only [hl, Option.getD_some] at hb
+      exact evParseHost_subset a _ (evLookup_mem hl) b hb
+  | sub n m =>
+    left
+    simp only [evPieceValue] at hb
+    cases hl : evLookup (evParseHost a) n with
+    | none => simp [hl] at hb
+    | some v =>
+      have hv := evParseHost_subset a _ (evLookup_mem hl)
+      simp only [hl] at hb
+      cases m with
+      | none => exact hv b hb
+      | some k =>
+        cases k with
+        | zero => exact hv b hb
+        | succ k =>
+          simp only at hb
+          split at hb
+          · rename_i hk
+            simp only [List.mem_singleton] at hb
+            subst hb
+            have : k < v.length := by omega
+            simp only [List.getD_eq_getElem?_getD, List.getElem?_eq_getElem this, Option.getD_some]
+            exact hv _ (List.getElem_mem this)
+          · simp at hb
+
+/-- labels %1, %2, ...: non-empty, no '.' - given the authority does not start with '.' -/
+theorem evLoop2_labels (a : Bytes) (h0 : a.getD 0 0 ≠ dot) : ∀ (p col i : Nat) (acc : List (Nat × Bytes)),
+    p < col → col ≤ a.length → (∀ j, p < j → j < col → a.getD j 0 ≠ dot) → 1 ≤ i →
+    (∀ e ∈ acc, 1 ≤ e.1 → e.2 ≠ [] ∧ dot ∉ e.2) →
+    (∀ e ∈ (evLoop2 a p col i acc).2.2, 1 ≤ e.1 → e.2 ≠ [] ∧ dot ∉ e.2) ∧
+    1 ≤ (evLoop2 a p col i acc).2.1 ∧
+    (evLoop2 a p col i acc).1 ≤ a.length ∧ 0 < (evLoop2 a p col i acc).1 ∧
+    (∀ j, j < (evLoop2 a p col i acc).1 → a.getD j 0 ≠ dot) := by
+  intro p
+  induction p with
+  | zero =>
+    intro col i acc hpc hcl hnd hi hacc
+    simp only [evLoop2]
+    refine ⟨hacc, hi, hcl, hpc, ?_⟩
+    intro j hj
+    by_cases e : j = 0
+    · subst e; exact h0
+    · exact hnd j (by omega) hj
+  | succ q ih =>
+    intro col i acc hpc hcl hnd hi hacc
+    unfold evLoop2
+    split
+    · rename_i hdot
+      split
+      · rename_i hne
+        apply ih (q + 1) (i + 1) _ (by omega) (by omega) (by intro j h1 h2; omega) (by omega)
+        intro e he
+        simp only [List.mem_append, List.mem_singleton] at he
+        rcases he with he | he
+        · exact hacc e he
+        · subst he
+          intro _
+          refine ⟨slice_ne_nil (by omega) hcl, ?_⟩
+          intro hm
+          obtain ⟨k, hk1, hk2, hk3⟩ := mem_slice hm
+          exact hnd k (by omega) hk2 hk3
+      · exact ih (q + 1) i acc (by omega) (by omega) (by intro j h1 h2; omega) hi hacc
+    · rename_i hdot
+      apply ih col i acc (by omega) hcl _ hi hacc
+      intro j h1 h2
+      by_cases e : j = q + 1
+      · subst e; exact hdot
+      · exact hnd j (by omega) h2
+
+theorem evLoop1_col (a : Bytes) : ∀ (p col : Nat) (first : Bool), p ≤ a.length → col ≤ a.length →
+    (evLoop1 a p col first).2 ≤ a.length := by
+  intro p
+  induction p with
+  | zero => intro col first _ h; simpa [evLoop1] using h
+  | succ q ih =>
+    intro col first hp hc
+    unfold evLoop1
+    simp only
+    split
+    · split
+      · exact ih _ _ (by omega) hc
+      · exact hc
+    · split
+      · exact ih _ _ (by omega) (by omega)
+      · exact ih _ _ (by omega) hc
+
+theorem evParseHost_labels (a : Bytes) (hd : a.head? ≠ some dot) :
+    ∀ e ∈ evParseHost a, 1 ≤ e.1 → e.2 ≠ [] ∧ dot ∉ e.2 := by
+  have h0 : a.getD 0 0 ≠ dot := by
+    cases a with
+    | nil => simp [dot]
+    | cons x xs => simpa using hd
+  unfold evParseHost
+  simp only
+  split
+  · split
+    · split
+      · simp
+      · intro e he h1; simp only [List.mem_singleton] at he; subst he; simp at h1
+    · intro e he h1; simp only [List.mem_singleton] at he; subst he; simp at h1
+  · have hcol := evLoop1_col a a.length a.length true (Nat.le_refl _) (Nat.le_refl _)
+    generalize evLoop1 a a.length a.length true = pc at hcol
+    obtain ⟨ptr, col⟩ := pc
+    simp only at hcol ⊢
+    have hacc0 : ∀ e ∈ [((0 : Nat), slice a (if a.getD ptr 0 = dot then ptr + 1 else ptr) col)],
+        1 ≤ e.1 → e.2 ≠ [] ∧ dot ∉ e.2 := by
+      intro e he h1; simp only [List.mem_singleton] at he; subst he; simp at h1
+    split
+    · rename_i hc0
+      have h2 := evLoop2_labels a h0 (col - 1) col 1 _ (by omega) hcol (by intro j h1 h2; omega)
+        (Nat.le_refl _) hacc0
+      generalize evLoop2 a (col - 1) col 1 _ = r at h2
+      obtain ⟨col2, i, acc⟩ := r
+      simp only at h2 ⊢
+      obtain ⟨g1, g2, g3, g4, g5⟩ := h2
+      split
+      · intro e he
+        simp only [List.mem_append, List.mem_singleton] at he
+        rcases he with he | he
+        · exact g1 e he
+        · subst he
+          intro _
+          refine ⟨slice_ne_nil g4 g3, ?_⟩
+          intro hm
+          obtain ⟨k, _, hk2, hk3⟩ := mem_slice hm
+          exact g5 k hk2 hk3
+      · exact g1
+    · exact hacc0
+
 end LtVerif
